@@ -5,6 +5,7 @@ Check n : <stmt>. Print Assumptions n.` for each name, the statement being what 
 import os, re, subprocess, sys
 ROOT = os.path.dirname(os.path.abspath(__file__)); COQ = os.path.join(ROOT, "coq")
 stem, imports, header = sys.argv[1:4]; names = sys.argv[4:]
+header = header.replace("*)", "* )").replace("(*", "( *")
 pre = "From Coq Require Import ZArith Permutation List.\nFrom IweV Require Import %s.\nLocal Open Scope string_scope.\nLocal Open Scope list_scope.\n" % imports
 tmp = os.path.join(COQ, "_mkprops_tmp.v")
 body = pre + "Set Printing Width 100.\n"
